@@ -249,6 +249,14 @@ func (r *rewriter) rewriteFile(f *ast.File) {
 			if n.Op == token.ARROW {
 				c.Replace(r.call("Recv", n.X))
 			}
+		case *ast.SelectorExpr:
+			// the type time.Timer (variables and fields holding the result of time.NewTimer)
+			if name, ok := r.pkgFunc(n, "time"); ok && name == "Timer" {
+				if _, isType := r.info.Uses[n.Sel].(*types.TypeName); isType {
+					c.Replace(&ast.SelectorExpr{X: ast.NewIdent("vsched"), Sel: ast.NewIdent("Timer")})
+					r.used = true
+				}
+			}
 		case *ast.CallExpr:
 			if id, ok := n.Fun.(*ast.Ident); ok && id.Name == "close" && len(n.Args) == 1 {
 				if _, isBuiltin := r.info.Uses[id].(*types.Builtin); isBuiltin {
@@ -258,10 +266,10 @@ func (r *rewriter) rewriteFile(f *ast.File) {
 			}
 			if name, ok := r.pkgFunc(n.Fun, "time"); ok {
 				switch name {
-				case "Now", "Since", "After", "Sleep":
+				case "Now", "Since", "After", "Sleep", "NewTimer":
 					n.Fun = &ast.SelectorExpr{X: ast.NewIdent("vsched"), Sel: ast.NewIdent(name)}
 					r.used = true
-				case "NewTimer", "NewTicker", "AfterFunc", "Tick", "Until":
+				case "NewTicker", "AfterFunc", "Tick", "Until":
 					r.errorf(n, "time.%s is not supported", name)
 				}
 			}
